@@ -199,6 +199,11 @@ fn decode(t: &mut Tape) -> Case {
                 }
             }
         }
+        // the function's own address need not be its lowest one (a loop head or cold block laid out
+        // before the entry): some instructions then lie below the function address
+        if klass >= 3 && count > 1 && t.chance(1, 4) {
+            spec.address = base + 4 * t.below(count as usize) as u64;
+        }
         fns.push(spec);
     }
     // resolve the placeholder branch targets now that every address is known
